@@ -57,6 +57,14 @@ def rename(p, is_age):
                     lambda strat, st: st if is_age(strat) else st + "q", lambda f: "r" + f)
 
 
+def rename_shared_labels(p, is_age):
+    """every (non-age) stratification gets the same stratum labels L0, L1, ... by position: labels are per stratification,
+    so sharing them between stratifications changes nothing"""
+    order = {o["name"]: list(o["strata"]) for o in p["ops"] if o["op"] == "strat"}
+    return mapnames(p, lambda c: c, lambda s: s,
+                    lambda strat, st: st if is_age(strat) else "L%d" % order[strat].index(st), lambda f: f)
+
+
 def comp_key(serialised, inv_comp=None, inv_strat=None, inv_stratum=None):
     """identity of a compartment from its serialised name: (name, frozenset of strata)"""
     parts = serialised.split("X")
